@@ -409,6 +409,31 @@ Fixpoint spec_panic (fl : bool) (wrote : bool) (acts : list act) : option pval :
   | _ :: r => spec_panic fl wrote r
   end.
 
+(* what the handler's own Flush calls had passed to the client when it had executed
+   [pre]: nothing, unless it flushed through a Flusher-capable writer; then status and
+   headers of its first Flush and the chunks written before its last Flush *)
+Fixpoint upto_last_flush (acts : list act) : list act :=
+  match acts with
+  | [] => []
+  | a :: r => if has_flush (a :: r) then a :: upto_last_flush r else []
+  end.
+
+Definition spec_committed (fl : bool) (h0 : hdrs) (pre : list act) : view :=
+  if fl && has_flush pre then
+    let v := spec_view fl h0 pre in
+    (fst (fst v), snd (fst v), spec_body (upto_last_flush pre))
+  else ([], None, []).
+
+(* "the timeout result": 503 / 499 by the kind of the Done event, the writer's own
+   headers, the fixed body, no 1xx response, nothing after it — on top of what the
+   handler had flushed itself before (nothing, for scripts without Flush) *)
+Definition timeout_view (fl : bool) (h0 : hdrs) (k : kind) (pre : list act) : view :=
+  match spec_committed fl h0 pre with
+  | (infos, Some x, body) => (infos, Some x, body ++ reason)
+  | (infos, None, body) => (infos, Some (timeout_code k, h0), body ++ reason)
+  end.
+
+
 (* ------------------------------------------------------------------ *)
 (* exempt requests (Upgrade: websocket, Accept: text/event-stream),
    TimeoutHandler(d <= 0) and routes without the timeout middleware: the handler
